@@ -18,7 +18,7 @@ import time as _time
 from typing import Any, Dict, List, Optional, Sequence, Tuple
 
 from vf.common import VERIF, CaseResult, Check, Scratch, rng_for
-from vf.fakes3 import FakeS3Client, FakeS3Store
+from vf.fakes3 import client_error, FakeS3Client, FakeS3Store
 from vf.interpose import GlobalPatch, ModuleProxy
 from vf.sched import PCT, RandomWalk, Scheduler, SchedEnv, Scripted, explore_bounded
 
@@ -150,9 +150,18 @@ def run_s3(case: Dict[str, Any], strategy: Any) -> Dict[str, Any]:
 
     root_cause = {"flagged": False}
 
+    faults = {"left": case.get("renew_faults", 0)}
+
     def before(req: Any) -> None:
         if req.key == KEY and req.op == "DELETE":
             req.kw["_owner_before"] = obj_owner()
+        if faults["left"] and req.key == KEY and req.op == "PUT" and "IfMatch" in req.kw:
+            # transient outage hitting A's lease renewals (driven by the heartbeat actor): refused, nothing applied
+            me = sched.me()
+            if me is not None and me.name == "hb" and by_id.get(req.kw["Body"].decode().split(":", 1)[0]) == "A":
+                faults["left"] -= 1
+                sched.count("renewal_faults")
+                raise client_error("ServiceUnavailable", "PUT", 503)
 
     def after(req: Any) -> None:
         me = sched.me()
@@ -268,6 +277,133 @@ def run_s3(case: Dict[str, Any], strategy: Any) -> Dict[str, Any]:
             "contended": sched.counters.get("virtual_sleeps", 0) > 0 or sched.counters.get("takeovers", 0) > 0}
 
 
+def run_s3_seq(case: Dict[str, Any]) -> Dict[str, Any]:
+    """Sequential histories of the CAS lock (no scheduler): random programs over
+    {acquire (one attempt), heartbeat renewal [ok | 503 refused | applied but answered 500], is_held, release,
+    clock +small / +lease} for 2-3 providers, judged against a lease model fed by the writes the store applies."""
+    import datashard.lock_provider as lp
+    from vf.fakes3 import VirtualNow
+    from vf.interpose import GlobalPatch, ModuleProxy
+    import time as _rt
+
+    rng = random.Random(case["seed"])
+    store = FakeS3Store(etag_mode=case.get("etag_mode", rng.choice(["md5", "unique"])))
+    store.keep_log = False
+    client = FakeS3Client(store)
+    KEY = "t/.locks/metadata.lock"
+    clock = store.clock
+    viol: List[Tuple[str, str]] = []
+    by_id: Dict[str, str] = {}
+    lease_until: Dict[str, float] = {}
+    owner_now: Dict[str, Optional[str]] = {"o": None}
+    fault = {"mode": None}
+    log: List[str] = []
+    counters: Dict[str, int] = {}
+
+    def owner_of_obj() -> Optional[str]:
+        o = store.objects.get(("bkt", KEY))
+        return by_id.get(o.body.decode().split(":", 1)[0], "?") if o is not None else None
+
+    def before(req: Any) -> None:
+        if req.key == KEY and req.op == "PUT" and fault["mode"] == "503":
+            fault["mode"] = None
+            counters["renewal_faults"] = counters.get("renewal_faults", 0) + 1
+            raise client_error("ServiceUnavailable", "PUT", 503)
+
+    def after(req: Any) -> None:
+        if req.key != KEY:
+            return
+        now = clock.now()
+        if req.op == "PUT" and req.effect == "written":
+            who = by_id.get(req.kw["Body"].decode().split(":", 1)[0], "?")
+            prev = owner_now["o"]
+            if prev is not None and prev != who:
+                counters["takeovers"] = counters.get("takeovers", 0) + 1
+                if lease_until.get(prev, 0) > now + 1e-9:
+                    viol.append(("seq:takeover-before-lease-lapsed",
+                                 f"{who} overwrote the lock at t={now:.1f} although {prev}'s lease (last written "
+                                 f"{lease_until[prev] - LEASE:.1f}) runs until {lease_until[prev]:.1f}"))
+            owner_now["o"] = who
+            lease_until[who] = now + LEASE
+            if fault["mode"] == "lost":
+                fault["mode"] = None
+                counters["renewal_faults"] = counters.get("renewal_faults", 0) + 1
+                raise client_error("RequestTimeout", "PUT", 500)
+        if req.op == "DELETE" and req.effect == "deleted":
+            owner_now["o"] = None
+
+    store.before.append(before)
+    store.after.append(after)
+    names = "ABC"[: case["n"]]
+    provs: Dict[str, Any] = {}
+    with GlobalPatch() as gp, VirtualNow(clock):
+        proxy = ModuleProxy(_rt, {"sleep": lambda s_: clock.advance(float(s_)), "time": clock.now, "monotonic": clock.now})
+        gp.set(lp, "time", proxy)
+        gp.set(lp.S3LockProviderBase, "_start_heartbeat", lambda self_: None)
+        for nm in names:
+            p = lp.S3LockProvider(client, "bkt", KEY, timeout=0.0, lease_seconds=int(LEASE))
+            provs[nm] = p
+            by_id[p.lock_id] = nm
+        for _step in range(case["len"]):
+            nm = rng.choice(names)
+            p = provs[nm]
+            op = rng.choice(["acquire", "acquire", "renew", "renew", "renew503", "renewlost", "is_held", "is_held", "release",
+                             "tick", "tick", "lapse"])
+            if op == "tick":
+                clock.advance(rng.choice([1.0, 10.0, 29.0]))
+                log.append("tick")
+                continue
+            if op == "lapse":
+                clock.advance(LEASE + 1.0)
+                log.append("lapse")
+                continue
+            now = clock.now()
+            if op == "acquire":
+                if p.is_locked:
+                    continue
+                live = owner_now["o"] is not None and owner_now["o"] != nm and lease_until.get(owner_now["o"], 0) > now + 1e-9
+                try:
+                    ok = p.acquire()
+                except TimeoutError:
+                    ok = False
+                log.append(f"{nm}.acquire->{ok}")
+                counters["acquires"] = counters.get("acquires", 0) + 1
+                if ok and live:
+                    viol.append(("seq:acquired-while-other-lease-live", f"{nm} acquired at t={now:.1f} while {owner_now['o']}'s lease was live"))
+                if ok and owner_of_obj() != nm:
+                    viol.append(("seq:acquire-true-but-object-not-ours", f"{nm}: acquire() True, object owner {owner_of_obj()}"))
+                if not ok and owner_now["o"] is None:
+                    viol.append(("seq:free-lock-not-acquired", f"{nm}: acquire() failed although no lock object exists"))
+            elif op.startswith("renew"):
+                if not p.is_locked:
+                    continue
+                fault["mode"] = {"renew": None, "renew503": "503", "renewlost": "lost"}[op]
+                try:
+                    p._renew_once()
+                finally:
+                    fault["mode"] = None
+                log.append(f"{nm}.{op}")
+                counters["heartbeats"] = counters.get("heartbeats", 0) + 1
+            elif op == "is_held":
+                held = p.is_held()
+                log.append(f"{nm}.is_held->{held}")
+                if held and owner_of_obj() != nm:
+                    viol.append(("seq:is-held-true-but-object-not-ours", f"{nm}: is_held() True but the lock object is owned by {owner_of_obj()}"))
+                if held:
+                    counters["is_held_true"] = counters.get("is_held_true", 0) + 1
+            elif op == "release":
+                if not p.is_locked:
+                    continue
+                before_owner = owner_of_obj()
+                p.release()
+                log.append(f"{nm}.release")
+                if before_owner is not None and before_owner != nm and owner_of_obj() is None:
+                    viol.append(("seq:release-deleted-another-owners-lock", f"{nm}.release() deleted {before_owner}'s lock object"))
+            if viol:
+                break
+    return {"viol": viol, "log": log, "counters": counters}
+
+
 class C19(Check):
     pid = "C19"
     level = "exploration"
@@ -279,7 +415,9 @@ class C19(Check):
             "lock, a HELD instance inherited by a child that tries to acquire through it / exits normally, the lock file "
             "re-created while free - each claim cross-checked with a raw flock probe; (c) 2-3 S3LockProvider contenders on the S3 double at request granularity + "
             "clock actor (lease expiry) + heartbeat actor: ALL schedules with <=2 preemptions for 2 contenders, "
-            "<=2 (budgeted) for 3 contenders, PCT/random beyond. non-trivial = execution with a failed attempt / "
+            "<=2 (budgeted) for 3 contenders, PCT/random beyond, cells with a transient outage refusing the holder's renewals; "
+            "(c2) sequential lock histories (one-attempt acquire, renewals ok / refused / applied-but-500, is_held, release, "
+            "clock +1..29 s / +lease) against a lease model fed by the writes the store applies. non-trivial = execution with a failed attempt / "
             "takeover / timeout; distinct = gate-level trace")
     assumptions = [
         "the O_EXCL fallback and msvcrt paths cannot execute on this platform and are not claimed",
@@ -311,14 +449,22 @@ class C19(Check):
             nsh = 8
             for sh in range(nsh):
                 yield dict(cfg, part="s3", k=k, shard=sh, nshards=nsh, max_runs=250 if q else 5000)
+        # a transient outage refuses A's first renewals (503, nothing applied) while its lease lapses and B takes over
+        for cfg in ({"n": 2, "clock_steps": 1, "hb_steps": 3, "renew_faults": 2}, {"n": 2, "clock_steps": 1, "hb_steps": 2, "renew_faults": 1}):
+            nsh = 8
+            for sh in range(nsh):
+                yield dict(cfg, part="s3", k=k, shard=sh, nshards=nsh, max_runs=250 if q else 5000)
         for cfg in ({"n": 3, "clock_steps": 1, "hb_steps": 0},):
             nsh = 16
             for sh in range(nsh):
                 yield dict(cfg, part="s3", k=2, shard=sh, nshards=nsh, max_runs=250 if q else 3000)
+        for i in range(64 if q else 1500):
+            yield {"part": "s3seq", "n": 2 + (i % 2), "len": 14 + (i % 3) * 6, "seed": seed * 1000003 + i, "programs": 40}
         nrand = 32 if q else 400
         for i in range(nrand):
             rng = rng_for(seed, "c19r", i)
-            yield {"part": "s3rand", "n": 3, "clock_steps": rng.choice([1, 2]), "hb_steps": rng.choice([0, 1, 2]),
+            yield {"part": "s3rand", "n": rng.choice([2, 3, 3]), "clock_steps": rng.choice([1, 2]), "hb_steps": rng.choice([0, 1, 2, 3]),
+                   "renew_faults": rng.choice([0, 0, 1, 2]),
                    "mode": rng.choice(["pct", "random"]), "seed": seed * 100000 + i, "runs": 10 if q else 20}
 
     # ------------------------------------------------------------------
@@ -328,6 +474,20 @@ class C19(Check):
             return self._procs(case, res)
         if part == "fork":
             return self._fork(case, res)
+        if part == "s3seq":
+            only = case.get("_replay_schedule")
+            for j in ([only] if only is not None else range(case["programs"])):
+                sub = dict(case, seed=case["seed"] * 1000 + j)
+                r = run_s3_seq(sub)
+                res.evals += 1
+                res.count("s3_seq_programs")
+                for cname, v in r["counters"].items():
+                    res.count("seq_" + cname, v)
+                if r["counters"].get("takeovers") or r["counters"].get("renewal_faults"):
+                    res.key(["s3seq", tuple(r["log"])])
+                for sig, msg in r["viol"][:1]:
+                    res.violation("s3:" + sig, msg + " | history: " + " ".join(r["log"][-14:]), {"case": case, "schedule": j, "log": r["log"]})
+            return
         if part == "local":
             with Scratch("c19") as d:
                 n = {"i": 0}
@@ -364,6 +524,9 @@ class C19(Check):
         res.count(f"{kind}_executions")
         res.count("takeovers", r["counters"].get("takeovers", 0))
         res.count("lease_expiries", r["counters"].get("lease_expiries", 0))
+        for cname in ("heartbeats", "renewal_faults", "wrongful_deletes"):
+            if r["counters"].get(cname):
+                res.count(cname, r["counters"][cname])
         nt = sum(1 for e in r["events"] if e.get("outcome") == "timeout")
         res.count("timeouts_observed", nt)
         if r["contended"] or nt:
